@@ -10,6 +10,8 @@ import (
 	"github.com/oauth2-proxy/oauth2-proxy/v7/pkg/apis/options"
 	"net/http"
 	"net/url"
+	"os"
+	"path/filepath"
 	"sort"
 	"strings"
 	"time"
@@ -114,6 +116,11 @@ var fwdHeaderSets = []http.Header{
 	{"X-Forwarded-Host": {"login.cookie.example.com, proxy.example.com"}},
 	{"X-Forwarded-Host": {"allowed.example.net,evil.example.org"}, "X-Forwarded-Proto": {"https, http"}, "X-Forwarded-Uri": {"/foo/a.js, /x"}},
 	{"X-Forwarded-For": {"127.0.0.1"}, "X-Real-Ip": {"127.0.0.1"}},
+	// a forwarded URI that names an API route / carries auth-only constraints / carries an absolute URL in its query
+	{"X-Forwarded-Uri": {"/api/v1/items"}},
+	{"X-Forwarded-Uri": {"/app?allowed_groups=dev&allowed_emails=alice@example.com&allowed_email_domains=example.com"}},
+	{"X-Forwarded-Uri": {"/app?allowed_groups=nobody"}},
+	{"X-Forwarded-Uri": {"/admin/users?rd=https://app.example.com/foo/a.js"}},
 }
 
 // fwdRandomSets: header sets drawn from every forwarding-style header name in common use (also ones the proxy
@@ -141,9 +148,17 @@ func init() {
 	registerSuite("fwd-pairs", func(c *suiteCtx) {
 		u := defaultUser()
 		base := proxyCfg{TrustedIPs: []string{"10.0.0.0/8"}, SkipAuthRoutes: []string{"GET=^/foo/.*\\.js$"}, Whitelist: []string{"allowed.example.net"},
-			CookieDomains: []string{".cookie.example.com", ".example.com"}, InjectRequest: defaultInject()}
+			CookieDomains: []string{".cookie.example.com", ".example.com"}, InjectRequest: defaultInject(), APIRoutes: []string{"^/api/"}}
 		var cfgs []proxyCfg
 		cfgs = append(cfgs, base)
+		{
+			// listening on a unix socket (a front proxy on the same machine) does not switch reverse-proxy mode on
+			sockDir, _ := os.MkdirTemp("", "verif-fwd")
+			defer os.RemoveAll(sockDir)
+			x := base
+			x.BindAddress = "unix://" + filepath.Join(sockDir, "proxy.sock")
+			cfgs = append(cfgs, x)
+		}
 		{
 			x := base
 			x.ForceHTTPS = true
@@ -202,6 +217,8 @@ func init() {
 				{"signin", "/oauth2/sign_in", "", "GET"}, {"signout", "/oauth2/sign_out?rd=https://allowed.example.net/bye", good, "GET"},
 				{"signout-post", "/oauth2/sign_out", good, "POST"}, {"userinfo", "/oauth2/userinfo", good, "GET"},
 				{"callback-nocookie", cu.RequestURI(), "", "GET"},
+				{"api-anon", "/api/v1/items", "", "GET"}, {"authonly-groups-no", "/oauth2/auth?allowed_groups=nobody", good, "GET"},
+				{"authonly-groups-yes", "/oauth2/auth?allowed_groups=dev", good, "GET"}, {"authonly-emails-no", "/oauth2/auth?allowed_emails=someone.else@example.com", good, "GET"},
 			}
 			for _, ep := range eps {
 				// peer / connection variants: default peer, a trusted TCP peer, a unix-socket peer ("@"), a Host that matches none of
@@ -212,7 +229,7 @@ func init() {
 				}
 				conns := []connVar{{"", "", false}, {"10.7.7.7:99", "", false}}
 				switch ep.name {
-				case "protected-anon", "start", "signout", "authonly-anon":
+				case "protected-anon", "start", "signout", "authonly-anon", "api-anon":
 					conns = append(conns, connVar{"@", "", false}, connVar{"", "internal.lb:8080", false}, connVar{"", "", true})
 				}
 				for _, cv := range conns {
